@@ -3,7 +3,7 @@ From Coq Require Import ZArith QArith Bool Reals Qreals.
 From Flocq Require Import Core.
 Require Import QV.common.Ctl QV.C14.Gen_numeric QV.C14.Gen_rational QV.C14.Model QV.C14.GenEq QV.C14.Proofs.
 Require Import QV.C14.GenEqRat QV.C14.ProofsRat QV.C14.HashModel QV.C14.ProofsHash QV.C14.Dispatch QV.C14.ProofsDispatch.
-Require Import QV.C14.Float64 QV.C14.ProofsFloat QV.C14.ProofsCons QV.C14.ProofsRound.
+Require Import QV.C14.Float64 QV.C14.ProofsFloat QV.C14.ProofsCons QV.C14.ProofsRound QV.C14.ProofsSpec QV.C14.ProofsAudit.
 Local Open Scope Q_scope.
 
 (* (1) the kernel re-translated from /repo on every run computes the clean model, for every fuel and input *)
@@ -33,7 +33,11 @@ Theorem C14_approximate_rational_minimal : forall (xp : Z) (xq : positive) (dp :
 Proof. exact approximate_rational_best_Q. Qed.
 Print Assumptions C14_approximate_rational_minimal.
 
-(* (4) operator table of the model: mixed-type use is symmetric, floor-division and modulo are the Euclidean pair *)
+(* (4) operator table.  NOTE (round 5 audit): the model of the operator wrappers is the specification's rational operation
+       applied to the converted operands (gmpy2.mpq is trusted exact), so the next four theorems are laws of the
+       SPECIFICATION (rational arithmetic on the documented operand values): they show that the specification has the
+       symmetry / Euclidean properties the statement names; that the CODE returns the specified values is established
+       by the correspondence check only (cases CBin / CCmp / CUn / CDisp / CCons), not by a theorem. *)
 Theorem C14_mixed_add_symmetric : forall t o r r',
   time_binop Add t o false = Some r -> time_binop Add t o true = Some r' -> r == r'.
 Proof. exact time_add_sym. Qed.
@@ -188,3 +192,26 @@ Theorem C14_float_roundtrip_checked : forall (m e : Z) (pydiv : Z -> Z -> R),
   pydiv num (Zpos den) = F2R (Float radix2 m e).
 Proof. exact float_roundtrip_checked. Qed.
 Print Assumptions C14_float_roundtrip_checked.
+
+(* ---------------------------------------------------------------------------------------------------------------- *)
+(* round 5 *)
+
+(* (12) soundness of the executable specification that check_spec evaluates on every tolerance-mode observation
+        (Spec.best_in, brute-force search): an accepted result with denominator <= 400 IS a fraction of smallest
+        denominator strictly inside (x - e, x + e), for all rationals x, e *)
+Theorem C14_spec_best_in_sound : forall (x e : Q) (p : Z) (q : positive), (Zpos q <= 400)%Z ->
+  best_in x e p (Zpos q) = true ->
+  in_open x e (p # q) /\ forall (p' : Z) (q' : positive), in_open x e (p' # q') -> (q <= q')%positive.
+Proof. exact best_in_sound. Qed.
+Print Assumptions C14_spec_best_in_sound.
+
+(* for larger denominators check_spec establishes less: inside, and no denominator <= 400 is (minimality between 401 and
+   q is NOT judged on the implementation's observation; it rests on theorems (5)-(6) about the translated code) *)
+Definition C14_spec_best_in_large_statement : Prop := forall (x e : Q) (p : Z) (q : positive), (400 < Zpos q)%Z ->
+  best_in x e p (Zpos q) = true ->
+  in_open x e (p # q) /\ forall (p' : Z) (q' : positive), in_open x e (p' # q') -> (q <= q')%positive.
+Theorem C14_spec_best_in_large_partial : forall (x e : Q) (p : Z) (q : positive), (400 < Zpos q)%Z ->
+  best_in x e p (Zpos q) = true ->
+  in_open x e (p # q) /\ forall (p' : Z) (q' : positive), in_open x e (p' # q') -> (400 < Zpos q')%Z.
+Proof. exact best_in_sound_large. Qed.
+Print Assumptions C14_spec_best_in_large_partial.
